@@ -81,6 +81,10 @@ func repoContexts() (plain []string, chainSep []string) {
 }
 
 func runCase(c chainsim.Case, rep chainsim.Reporter, scratch string) {
+	if c.Mode == "readfault" {
+		runReadFaultCase(c, rep, scratch)
+		return
+	}
 	am := &chainsim.AuthMonitor{Rep: rep}
 	rec := &chainsim.Recorder{TxSubs: []chainsim.TxMonitor{am}}
 	// One test replica takes the proposer / validator / round-change paths, so altered copies of
@@ -244,7 +248,15 @@ func main() {
 		Cases: func(r *evid.Run) []chainsim.Case {
 			cs := chainsim.StdCases(r.Seed, r.Pick(64, 1600), r.Pick(50, 100), []string{"default", "registry", "hostile"})
 			cs = chainsim.WithExtraCases(cs, r.Seed, r.Pick(4, 100), "keymanager") // key manager transactions
-			return chainsim.WithExtraCases(cs, r.Seed, r.Pick(4, 100), "vrf")      // VRF beacon backend: proof transactions
+			cs = chainsim.WithExtraCases(cs, r.Seed, r.Pick(4, 100), "vrf")        // VRF beacon backend: proof transactions
+			// Read-fault twins (hook H6): the nonce discipline on a node whose store fails single reads.
+			n0 := len(cs)
+			cs = chainsim.WithExtraCases(cs, r.Seed, r.Pick(24, 400), "default")
+			for i := n0; i < len(cs); i++ {
+				cs[i].Mode = "readfault"
+				cs[i].Profile = []string{"default", "hostile", "registry"}[i%3]
+			}
+			return cs
 		},
 		RunCase: runCase,
 		Floor:   10,
